@@ -20,16 +20,19 @@ SHARD_SIZE = 150
 RULE = ('node configurations of up to 5 declared modules (plain / HasIO with uri or io / Pinata with dynamically scanned '
         'modules), every module with 0-2 attachments (target: any declared or scanned module, a missing module, or not '
         'given; mandatory/optional; required base class; accessed in earlyInit or initModule), export flag, polling flag, '
-        '0-2 configured start values, failing earlyInit/initModule, hanging first poll round; all declaration orders come '
+        '0-2 configured start values (one of the writes may fail with CommunicationFailedError / HardwareError / RuntimeError), '
+        'failing earlyInit/initModule, hanging first poll round; all declaration orders come '
         'from the generator (targets are chosen independently of the order, cycles included); a schedule interleaves '
-        'startModule calls, poll thread steps and the start time-out.  thorough adds every attachment graph on up to 4 '
+        'startModule calls, poll thread steps and the start time-out; a family of hand-over schedules lets the first poll '
+        'thread finish its round between two startModule calls.  thorough adds every attachment graph on up to 4 '
         'modules with every declaration order.  non-trivial = at least two modules and one attachment access or poll '
         'thread; distinct = distinct (configuration, effective schedule)')
 ASSUMPTIONS = [
     'module classes are the instrumented classes of harness/props/C15.py (earlyInit/initModule access the attachments, '
-    'read/write functions do not raise, CommunicationFailedError path of the poll thread start-up is not modelled)',
+    'read functions and initialReads do not raise, write functions raise when scripted; the CommunicationFailedError path '
+    'of initialReads / of the first reads in the poll thread start-up is not modelled)',
     'poll threads are real threads run one at a time by a baton scheduler; a thread step ends at the next instrumented '
-    'event; after the started callback (or after the node reported ready) threads run freely and only their per-thread '
+    'event (and where a poll thread sets the flag of the start MultiEvent without holding its lock); after the started callback (or after the node reported ready) threads run freely and only their per-thread '
     'order is checked',
     'the recursion limit of CPython enters as data: for cyclic attachments only the outcome (configuration error, node '
     'not started) is compared, not the number of repeated initialisations',
@@ -1024,7 +1027,7 @@ def search_cases(seed, mismatching):
 
 def gen_cases(seed, tier):
     rng = random.Random(seed * 1000003 + 15)
-    n = {'quick': 3400, 'thorough': 24000, 'search': 24000}.get(tier, 3400)
+    n = {'quick': 2600, 'thorough': 24000, 'search': 24000}.get(tier, 2600)
     cases = [rand_case(rng) for _ in range(n)]
 
     def all_orders(k, mask):
